@@ -31,6 +31,7 @@ TrProg == [t \in TrThreads |-> Rec.prog[t]]
 TrHash == Rec.hashof
 TrInit == Rec.initkeys
 TrN0 == Rec.n0
+TrMaxNodes == IF "maxnodes" \in DOMAIN Rec THEN Rec.maxnodes ELSE 80
 Diag == "DIAG" \in DOMAIN IOEnv /\ IOEnv.DIAG = "1"
 IsSetRun == "TRACE" \in DOMAIN IOEnv /\ Rec.set = 1
 
